@@ -63,7 +63,10 @@ def wrap(s):
 def case(ctx, idx, res):
     r = rng_for(ctx.seed, 'c11', idx)
     drv = ctx.drv('plain')
-    xml, info = gen_xml.gen_doc(r, size=r.choice([8, 15, 25, 40]), ns=r.random() < 0.6)
+    # a third of the documents are whitespace-heavy and evaluated as under xsl:strip-space (all elements, or some): stripped
+    # text nodes must be absent through every entry point alike
+    strip = r.choice([0, 0, 1, 2])
+    xml, info = gen_xml.gen_doc(r, size=r.choice([8, 15, 25, 40]), ns=r.random() < 0.6, ws_heavy=strip != 0)
     doc = refxml.parse(xml)
     nodes = c02.all_nodes(doc)
     use_xerces = r.random() < 0.25
@@ -91,7 +94,9 @@ def case(ctx, idx, res):
             if r.random() < 0.3 and cnode.parent is not None and cnode.kind not in (refxml.ATTR, refxml.NS):
                 ctxlist = X.sort_unique([s for s in cnode.parent.children if r.random() < 0.7 or s is cnode])
             # the string entry appends to the caller's buffer (AVT parts share one): give it a non-empty one
-            rep = C.call_xpath(drv, h, expr, cnode.path(), [n.path() for n in ctxlist], NS, variables, 'all', strprefix='PRE|')
+            rep = C.call_xpath(drv, h, expr, cnode.path(), [n.path() for n in ctxlist], NS, variables, 'all', strprefix='PRE|', strip=strip)
+            if strip:
+                res.count('evaluated_with_stripping')
             if 'str' in rep:
                 if not rep['str'].startswith('PRE|'):
                     res.viol('entry-str-overwrites-buffer|%s' % (ast[0] if ast[0] != 'func' else 'func:' + ast[1]), 'the string entry point overwrote the caller\'s buffer instead of appending for %s (got %r)' % (expr, rep['str'][:60]), {'expression': expr})
@@ -102,7 +107,7 @@ def case(ctx, idx, res):
                 res.count('rejected_at_compile')
                 continue
             rtop = ast[0] if ast[0] != 'func' else 'func:' + ast[1]
-            payload = {'expression': expr, 'context': cnode.path(), 'document': xml, 'xerces': use_xerces, 'reply': {k: v[:200] for k, v in rep.items()}}
+            payload = {'expression': expr, 'context': cnode.path(), 'document': xml, 'xerces': use_xerces, 'strip': strip, 'reply': {k: v[:200] for k, v in rep.items()}}
             if 'generic_error' in rep:
                 # every entry must fail too
                 for e in ('bool', 'num', 'str', 'chars'):
